@@ -117,6 +117,7 @@ Section Pres.
     all: try (eapply ws_dqwfw; hyp; fail).
     all: try (eapply ws_dqwfp; hyp; fail).
     all: try (eapply ws_await_pending; hyp; fail).
+    all: try (eapply ws_await_either_pending; hyp; fail).
     all: try (eapply (ws_signal _ _ _ _ _ _ _ _ _ _ HO HI Hst); reflexivity).
     all: try (eapply (ws_release_idle _ _ _ _ []); [exact HO|exact HI|exact Hst|reflexivity|]; by intros ? ?%elem_of_nil).
     (* DrainWaker tables *)
